@@ -161,7 +161,19 @@ func hsOneUpgrade(up *gws.Upgrader, raw []byte) (c *gws.Conn, err error, req *ht
 	return c, err, req, sc, peer.ReadAvailable(), nil
 }
 
+// hsStripObs drops observation fields ("impl:…", appended to case lines by earlier runs).
+func hsStripObs(args []string) []string {
+	out := args[:0:0]
+	for _, a := range args {
+		if !strings.HasPrefix(a, "impl:") {
+			out = append(out, a)
+		}
+	}
+	return out
+}
+
 func execHsServer(args []string) string {
+	args = hsStripObs(args)
 	switch args[0] {
 	case "bad":
 		up := gws.NewUpgrader(newRecorder(), &gws.ServerOption{Logger: quietLogger{}})
@@ -244,7 +256,8 @@ func execHsServer(args []string) string {
 	if c != nil {
 		_ = sc.Close()
 	}
-	return out
+	// observation for the driver: what the implementation decided (judged against the property's iff)
+	return out + "\timpl:" + b2s(err == nil)
 }
 
 // ---- hs-server: Gen -----------------------------------------------------------------------------
@@ -372,8 +385,8 @@ const (
 )
 
 var (
-	hsConnValid  = []string{"Upgrade", "upgrade", "UPGRADE", "uPgRaDe", "keep-alive, Upgrade", "Upgrade, keep-alive", "keep-alive,upgrade", "keep-alive ,  Upgrade  , x", "Upgrade,", ",Upgrade"}
-	hsConnNear   = []string{"upgradex", "xupgrade", "keep-alive, upgrades", "no-upgrade", "Upgrade" + hsNbsp, "Upgrade" + hsKelvin, "\"Upgrade\"", "Upgrade;q=1"}
+	hsConnValid  = []string{"Upgrade", "upgrade", "UPGRADE", "uPgRaDe", "keep-alive, Upgrade", "Upgrade, keep-alive", "keep-alive,upgrade", "keep-alive ,  Upgrade  , x", "Upgrade,", ",Upgrade", "x,\tuPGRADe\t,y", "keep-alive,\t \tupgrade", ",, ,Upgrade ,,", "Upgrade" + hsNbsp, "\u3000upgrade\u2003, close"}
+	hsConnNear   = []string{"upgradex", "xupgrade", "keep-alive, upgrades", "no-upgrade", "Upgrade" + hsKelvin, "\"Upgrade\"", "Upgrade;q=1", "Upgrade keep-alive", "Upgrade\tx", "up,grade", "Upgrade=1", "keep-alive; Upgrade"}
 	hsConnBad    = []string{"", "keep-alive", "close", "upgrad", "up grade", "u-p-g-r-a-d-e", "upgrad" + hsKelvin, "Upgr" + hsDotI + "ade", "Upgrad\u00e9", "pgrade", "\xffpgrade"}
 	hsUpgValid   = []string{"websocket", "WebSocket", "WEBSOCKET", "wEbSoCkEt"}
 	hsUpgFold    = []string{"websoc" + hsKelvin + "et", "web" + hsLongS + "ocket", "WEB" + hsLongS + "OC" + hsKelvin + "ET"}
@@ -478,7 +491,20 @@ func genHsServer(g *Gen) {
 	for i := 0; i < 8; i++ {
 		hsEmitServer(g, plain, base.add("X-Pad", string(r.Text(10+r.Intn(200)))).shuffle(r))
 	}
-	// duplicated header lines: only the first is read by Header.Get
+	// the upgrade token on a second or third Connection line, near misses spread over several lines
+	for _, lines := range [][]string{
+		{"keep-alive", "Upgrade"}, {"keep-alive", "x, upgrade ,y"}, {"", "Upgrade"}, {",", "close", "\tUPGRADE "},
+		{"upgradex", "Upgrade"}, {"Upgrade", "upgradex"}, {"keep-alive", "close"}, {"upgradex", "no-upgrade", "keep-alive, upgrades"},
+		{"up", "grade"}, {"keep-alive, up", "grade, x"},
+	} {
+		m := base.drop("Connection")
+		for i, v := range lines {
+			m = m.add([]string{"Connection", "connection", "CONNECTION"}[i%3], v)
+		}
+		hsEmitServer(g, plain, m)
+		hsEmitServer(g, plain, m.shuffle(r))
+	}
+	// duplicated header lines: Connection is read on all lines, the others on the first (Header.Get)
 	for _, k := range []string{"Connection", "Upgrade", "Sec-WebSocket-Version", "Sec-WebSocket-Key"} {
 		for _, other := range []string{"keep-alive", "x", ""} {
 			hsEmitServer(g, plain, base.add(k, other))
@@ -552,6 +578,8 @@ func genHsServer(g *Gen) {
 		}
 		hsEmitServer(g, o, base.add("Sec-WebSocket-Protocol", "mqtt").add("Sec-WebSocket-Protocol", "chat"))
 		hsEmitServer(g, o, base.add("Sec-WebSocket-Protocol", "other").add("sec-websocket-protocol", "chat, mqtt"))
+		hsEmitServer(g, o, base.add("Sec-WebSocket-Protocol", "").add("Sec-WebSocket-Protocol", "x,").add("SEC-WEBSOCKET-PROTOCOL", " mqtt\t"))
+		hsEmitServer(g, o, base.add("Sec-WebSocket-Protocol", "ch").add("Sec-WebSocket-Protocol", "at")) // joined with a comma, not glued
 	}
 	// 4. extension offers x compression enabled or not
 	for _, comp := range []bool{false, true} {
@@ -771,6 +799,7 @@ func hsShowClientRequest(req *http.Request) string {
 }
 
 func execHsClient(args []string) string {
+	args = hsStripObs(args)
 	switch args[0] {
 	case "keys":
 		n, _ := strconv.Atoi(args[1])
@@ -883,8 +912,13 @@ func execHsClient(args []string) string {
 	}
 	_ = cc.Close()
 	_ = peer.Close()
-	return fmt.Sprintf("acc=%s err=%s sp=%s closed=%s timely=%s %s msgs=%s", b2s(c != nil && err == nil), hsClientErrClass(err), sp,
+	out := fmt.Sprintf("acc=%s err=%s sp=%s closed=%s timely=%s %s msgs=%s", b2s(c != nil && err == nil), hsClientErrClass(err), sp,
 		b2s(closed), b2s(elapsed < tmo+500*time.Millisecond), hsShowClientRequest(req), msgs)
+	if args[0] == "resp" {
+		// observation for the driver: what the implementation decided
+		out += "\timpl:" + b2s(c != nil && err == nil)
+	}
+	return out
 }
 
 // hsClientKey performs one handshake against a correct scripted server and returns the key sent.
@@ -1014,7 +1048,20 @@ func genHsClient(g *Gen) {
 		hsEmitClient(g, plain, base.set("Sec-WebSocket-Accept", v), nil, nil)
 	}
 	hsEmitClient(g, plain, base.drop("Sec-WebSocket-Accept"), nil, nil)
-	// duplicated lines: Header.Get reads the first
+	// the upgrade token on a later Connection line, near misses spread over several lines
+	for _, lines := range [][]string{
+		{"keep-alive", "Upgrade"}, {"keep-alive", "x, upgrade ,y"}, {"", "Upgrade"}, {",", "close", "\tUPGRADE "},
+		{"upgradex", "Upgrade"}, {"Upgrade", "upgradex"}, {"keep-alive", "close"}, {"upgradex", "no-upgrade", "keep-alive, upgrades"},
+		{"up", "grade"}, {"keep-alive, up", "grade, x"},
+	} {
+		m := base.drop("Connection")
+		for i, v := range lines {
+			m = m.add([]string{"Connection", "connection", "CONNECTION"}[i%3], v)
+		}
+		hsEmitClient(g, plain, m, nil, nil)
+		hsEmitClient(g, plain, m.shuffle(r), nil, nil)
+	}
+	// duplicated lines: Connection is read on all lines, the others on the first (Header.Get)
 	for _, k := range []string{"Connection", "Upgrade", "Sec-WebSocket-Accept"} {
 		for _, other := range []string{"x", "", "$OTHER"} {
 			hsEmitClient(g, plain, base.add(k, other), nil, nil)
